@@ -39,7 +39,7 @@ def main():
         if not diff.exists():
             print(f"{pid}_{x}: missing")
             continue
-        sh("git checkout -- .", cwd=wt)
+        sh("git checkout -- . && git clean -fdq circuitgraph", cwd=wt)
         rc, out = sh(f"git apply {diff.name}", cwd=wt)
         if rc:
             print(f"{pid}_{x}: diff does not apply: {out[:150]}")
@@ -56,7 +56,7 @@ def main():
                 if rc != 0:
                     results[c] = {"exit": rc, "lines": lines}
         sh("rm -rf /tmp/rf_ev_*")
-        sh("git checkout -- .", cwd=wt)
+        sh("git checkout -- . && git clean -fdq circuitgraph", cwd=wt)
         meta = {"id": f"refactor_{pid}_{x}", "property": pid, "kind": "behaviour-preserving refactoring (independent sub-agent)", "tests_same_as_clean": same,
                 "alarms": results, "silent": not results, "notes": (wt / f"refactor_{x}_notes.md").read_text()[:1200] if (wt / f"refactor_{x}_notes.md").exists() else ""}
         out_dir = VERIF / "seeded" / meta["id"]
